@@ -87,6 +87,7 @@ type zzConnCfg struct {
 	errs       *int
 	poolSize   uint32
 	blockwise  bool // block-wise transfer enabled (SZX 16, the same wiring as udp.Client)
+	limit      int64 // parallel-request limit (0: 4)
 }
 
 func zzNewConn(s *zzSession, c zzConnCfg) *Conn {
@@ -117,6 +118,9 @@ func zzNewConn(s *zzSession, c zzConnCfg) *Conn {
 	cfg.TransmissionMaxRetransmit = c.maxRetrans
 	cfg.LimitClientParallelRequests = 4
 	cfg.LimitClientEndpointParallelRequests = 4
+	if c.limit > 0 {
+		cfg.LimitClientParallelRequests = c.limit
+	}
 	cfg.ReceivedMessageQueueSize = 2
 	if c.blockwise {
 		cfg.BlockwiseSZX = blockwise.SZX16
